@@ -479,3 +479,102 @@ func scanNotOperand(r *run) {
 	})
 	addScanObl(r, "not-operand-is-a-term", "in parseTerm the operand of prefix not is parsed by parseTerm itself (one operand), not by the expression parser", found && ok, detail)
 }
+
+// scanRegistrationPrimitives (C03, C07): the registration primitives are abstract in the contracts (they store
+// closures in scope dictionaries; each is ASSUMED to log exactly its own entry).  What the assumption rests on
+// is checked here, syntactically, on every run: the body of each primitive is straight-line code (no if / for /
+// switch, no function literal around the store) that performs exactly the listed unconditional dict.Add calls,
+// each on the named field of the scope's dictionary record (or of the global table) with the function's key
+// parameter as the key.  A guard around the store ("skip if present"), a second store, or a store into another
+// dictionary fails this obligation.
+func scanRegistrationPrimitives(r *run) {
+	type want struct {
+		fn     string
+		fields []string // dictionary (field of SCSDict(s), or global variable) of each dict.Add, in order
+		keyArg int      // index of the parameter used as the key; -1: the key is a call on a parameter
+	}
+	wants := []want{
+		{"main.scDefVar", []string{"VarFacMap"}, 1},
+		{"main.scRegisterVarFac", []string{"VarFacMap"}, 1},
+		{"main.scRegisterTypeFac", []string{"TypeFacMap"}, 1},
+		{"main.scRegisterRecFac", []string{"RecFacMap", "TypeFacMap"}, 1},
+		{"main.updateUniInfo", []string{"g_uniInfoDic"}, -1},
+		{"main.updateRecInfo", []string{"g_recInfoDic"}, -1},
+	}
+	for _, w := range wants {
+		ref := r.eng.FuncDecl[w.fn]
+		name := "registration-primitive-" + strings.TrimPrefix(w.fn, "main.")
+		what := w.fn + " is straight-line code that stores unconditionally, exactly once per listed dictionary (" + strings.Join(w.fields, ", ") + "), under its key parameter"
+		if ref == nil || ref.Decl.Body == nil {
+			addScanObl(r, name, what, false, "function not found")
+			continue
+		}
+		var params []string
+		for _, f := range ref.Decl.Type.Params.List {
+			for _, n := range f.Names {
+				params = append(params, n.Name)
+			}
+		}
+		var problems []string
+		var adds []string
+		for _, st := range ref.Decl.Body.List {
+			switch s := st.(type) {
+			case *ast.AssignStmt, *ast.DeclStmt:
+				// a local definition: may not contain a function literal that stores, or any control flow
+				ast.Inspect(s, func(n ast.Node) bool {
+					if c, ok := n.(*ast.CallExpr); ok && isDictAdd(c) {
+						problems = append(problems, "a store inside a definition statement")
+					}
+					return true
+				})
+			case *ast.ExprStmt:
+				c, ok := s.X.(*ast.CallExpr)
+				if !ok || !isDictAdd(c) || len(c.Args) != 3 {
+					problems = append(problems, "a statement that is not a plain dict.Add call")
+					continue
+				}
+				// first argument: <x>.Field or a global
+				field := ""
+				switch a := c.Args[0].(type) {
+				case *ast.SelectorExpr:
+					field = a.Sel.Name
+				case *ast.Ident:
+					field = a.Name
+				}
+				adds = append(adds, field)
+				// key
+				if w.keyArg >= 0 {
+					if id, ok := c.Args[1].(*ast.Ident); !ok || w.keyArg >= len(params) || id.Name != params[w.keyArg] {
+						problems = append(problems, "the key of the store is not the key parameter")
+					}
+				} else {
+					kc, ok := c.Args[1].(*ast.CallExpr)
+					okKey := false
+					if ok && len(kc.Args) == 1 {
+						if id, ok := kc.Args[0].(*ast.Ident); ok && len(params) > 0 && id.Name == params[0] {
+							okKey = true
+						}
+					}
+					if !okKey {
+						problems = append(problems, "the key of the store is not computed from the first parameter")
+					}
+				}
+			default:
+				problems = append(problems, fmt.Sprintf("control flow or another statement kind (%T)", st))
+			}
+		}
+		if strings.Join(adds, ",") != strings.Join(w.fields, ",") {
+			problems = append(problems, "stores found: ["+strings.Join(adds, ", ")+"]")
+		}
+		addScanObl(r, name, what, len(problems) == 0, strings.Join(problems, "; "))
+	}
+}
+
+func isDictAdd(c *ast.CallExpr) bool {
+	if sel, ok := c.Fun.(*ast.SelectorExpr); ok {
+		if id, ok := sel.X.(*ast.Ident); ok && id.Name == "dict" && sel.Sel.Name == "Add" {
+			return true
+		}
+	}
+	return false
+}
